@@ -32,7 +32,8 @@ def handlers : List (String × (Json → Except String Json)) := [
   ("namesSrc", SqlLineage.IO.Names.handleSrc),
   ("namesSites", SqlLineage.IO.Names.handleSites),
   ("namesEq", SqlLineage.IO.Names.handleEq),
-  ("chain", SqlLineage.IO.Chain.handleChain)
+  ("chain", SqlLineage.IO.Chain.handleChain),
+  ("chainpaths", SqlLineage.IO.Chain.handleChainPaths)
 ]
 
 def handleLine (line : String) : String :=
